@@ -1588,7 +1588,7 @@ func (b *Backend) isStructType(typeHandle ir.TypeHandle) bool {
 // - A BindingArray type
 func (b *Backend) globalNeedsWrapper(gv ir.GlobalVariable) bool {
 	switch gv.Space {
-	case ir.SpaceUniform, ir.SpaceStorage, ir.SpaceImmediate:
+	case ir.SpaceUniform, ir.SpaceStorage, ir.SpacePushConstant, ir.SpaceImmediate:
 		// These spaces need wrapping
 	default:
 		return false
